@@ -358,6 +358,9 @@ func nickRun(e *Env) {
 			where += " (client NICK refused then confirmed)"
 		case 2: // forced by the server
 			f := fmt.Sprintf("Forced%d", uniq)
+			if x.arg%6 == 0 {
+				f = serverNick // a NICK line that changes nothing (services re-asserting the nick)
+			}
 			e.S.Count("fault.server-forced-nick")
 			l.SendLine(":" + serverNick + "!ident@host.sim NICK " + f)
 			serverNick = f
@@ -736,7 +739,28 @@ func regRun(e *Env) {
 		}
 	}
 	for conn := 1; conn <= nConns && !e.S.Failed(); conn++ {
-		err := c.Connect()
+		var err error
+		if conn > 1 && g.S.Choose(2) == 0 {
+			// the application moves on to another server of its list
+			server = servers[g.S.Choose(len(servers))]
+			wantAddr = server
+			if !(strings.LastIndex(server, ":") > strings.LastIndex(server, "]")) {
+				port := "6667"
+				if ssl {
+					port = "6697"
+				}
+				wantAddr = server + ":" + port
+			}
+			e.S.Count("probe.server-changed-between-connections")
+			if g.S.Choose(2) == 0 {
+				c.Config().Server = server
+				err = c.Connect()
+			} else {
+				err = c.ConnectTo(server)
+			}
+		} else {
+			err = c.Connect()
+		}
 		e.Check()
 		if len(e.Dials) != conn {
 			e.Violation("dial", "Connect #%d dialled %d times", conn, len(e.Dials)-conn+1)
@@ -977,11 +1001,13 @@ func regRun(e *Env) {
 func capRun(e *Env) {
 	g := G{e.S}
 	universe := []string{"multi-prefix", "away-notify", "account-notify", "extended-join"}
-	big := g.Pct(15)
+	big := g.Pct(25)
 	if big {
 		universe = nil
 		for i := 0; i < g.Range(50, 200); i++ {
-			universe = append(universe, fmt.Sprintf("vendor.example/capability-number-%03d", i))
+			// names of every length, so that request lines are filled to every
+			// possible length, the limit itself included
+			universe = append(universe, fmt.Sprintf("vendor.example/cap-%03d%s", i, g.Str(lower, 0, 24)))
 		}
 	}
 	var wanted, advertised []string
